@@ -19,7 +19,8 @@ change it: it re-evaluates the current references.
   3. after a `tick`, if every awaitable of the NEWEST evaluation of `p`'s current reference has
      completed, `p` holds its last result;
   4. after a `tick` with every awaitable of every task completed, `syncing` and `async_refs` are empty;
-  5. `bump` only ever re-evaluates current references;
+  5. `bump` only ever re-evaluates current references; `trigger` of a parameter counts as the plain
+     assignment of the value it held, the watcher run by `trigger('c')` as its plain assignment;
   6. a value the parameter rejects (`rej`) is never stored; an evaluation ends at its first rejected
      result (for 3.: the value to hold is the last result BEFORE it, if any; for 4.: its later
      awaitables do not count as pending).
@@ -55,8 +56,10 @@ structure OSt where
   tasks : List (Nat × Nat × Nat)        -- every task scheduled so far
   kinds : List (Nat × Kind)             -- reference ↦ kind
   done : List (Fid × Int)               -- completed hand-made futures
+  vals : List Int                       -- the values observed after the previous event
+  fn : List (Nat × Nat)                 -- parameter ↦ the function object last assigned to it (a reference)
 
-def OSt.init : OSt := { lat := [], pend := [], tasks := [], kinds := [], done := [] }
+def OSt.init : OSt := { lat := [], pend := [], tasks := [], kinds := [], done := [], vals := [], fn := [] }
 
 def OSt.latOf (o : OSt) (p : Nat) : Last :=
   match o.lat.find? (fun e => e.1 = p) with
@@ -120,13 +123,31 @@ def checkEventH (np : Nat) (e : Env) (o : OSt) (ev : EventH) (obs : ObsH) : Exce
       | [(t, q, r)] =>
         if q != p || r != t then throw s!"assignment to {p} scheduled task {t} for parameter {q}, reference {r}"
         let k : Kind := match src with | .agen n => .agen n | _ => .coro
-        pure { (o.setLat p (.task t)) with kinds := o.kinds ++ [(t, k)], tasks := o.tasks ++ [(t, q, r)] }
+        pure { (o.setLat p (.task t)) with kinds := o.kinds ++ [(t, k)], tasks := o.tasks ++ [(t, q, r)],
+                                           fn := (p, t) :: o.fn.filter (fun e => e.1 ≠ p) }
       | l => throw s!"an asynchronous assignment scheduled {l.length} tasks"
+    | .again p =>
+      match o.fn.find? (fun e => e.1 = p), obs.spawns with
+      | some (_, r0), [(t, q, r)] =>
+        if q != p || r != r0 then throw s!"re-assignment of reference {r0} to {p} scheduled task {t} for parameter {q}, reference {r}"
+        pure { (o.setLat p (.task r0)) with tasks := o.tasks ++ [(t, q, r)] }
+      | none, [] => pure o
+      | _, l => throw s!"re-assigning the same function scheduled {l.length} tasks"
     | .bump =>
       match obs.spawns.find? (fun (_, q, r) => o.latOf q != .task r) with
       | some (t, q, r) => throw s!"task {t} re-evaluates reference {r} of parameter {q}, which is not its current reference"
       | none => pure { o with tasks := o.tasks ++ obs.spawns }
     | .tick => if obs.spawns != [] then throw "a task was scheduled during a tick" else pure o
+    | .trigC =>
+      if obs.spawns != [] then throw "trigger scheduled a task"
+      match e.thook with
+      | some (b, w) => pure { (o.setLat b (.plain w)) with pend := o.pend ++ [(b, w)] }
+      | none => pure o
+    | .trigP p =>
+      if obs.spawns != [] then throw "trigger scheduled a task"
+      -- `trigger(p)` re-assigns the value `p` held: a plain assignment of that value
+      let v := o.vals[p]?.getD 0
+      pure { (o.setLat p (.plain v)) with pend := o.pend ++ [(p, v)] }
     | .complete t k v =>
       if obs.spawns != [] then throw "a task was scheduled by a completion"
       pure (if (o.doneVal (t, k)).isSome then o else { o with done := o.done ++ [((t, k), v)] })
@@ -156,7 +177,7 @@ def checkEventH (np : Nat) (e : Env) (o : OSt) (ev : EventH) (obs : ObsH) : Exce
   if ev == .tick && o2.tasks.all (fun (t, _, r) => o2.taskDone e.rej t r) then
     if obs.sync != [] then throw s!"syncing = {obs.sync} although every awaitable has completed and the loop is idle"
     if obs.async != [] then throw s!"async_refs still has {obs.async} although every awaitable has completed"
-  pure o2
+  pure { o2 with vals := obs.vals }
 
 /-- (number of events checked, first failure) -/
 def specHistoryH (np : Nat) (e : Env) : OSt → List (EventH × ObsH) → Nat → Nat × Option String
